@@ -79,3 +79,77 @@ Theorem model_outputs_pass_spec :
                spec_gen KRoundTrip (class_of (decode parse s (encode s v))) true = true).
 Proof. exact Proofs.C19.model_outputs_pass_spec. Qed.
 Print Assumptions model_outputs_pass_spec.
+
+(* ---- decoded values are independent: the round trip holds for a whole HISTORY of decodes.
+   [decode_history parse s [b1; ...; bn]] is the model of "decode b1, ..., decode bn with the
+   same decoder, then read all n decoded values back"; decoding being a function of the bytes
+   alone, it is the list of the independent results. *)
+Theorem roundtrip_history :
+  forall (parse : N -> list N -> option (list N)) (s : mschema) (vs : list (list fval)),
+    wf_schema s -> Forall (wf_value parse s) vs ->
+    decode_history parse s (map (encode s) vs) = map Ok vs.
+Proof. exact Proofs.C19.roundtrip_history. Qed.
+Print Assumptions roundtrip_history.
+
+(* position i holds the value encoded at position i, whatever else (values, rejected inputs,
+   arbitrary bytes; earlier or later) the history contains *)
+Theorem history_position :
+  forall parse s (bs : list (list N)) (i : nat) (v : list fval),
+    wf_schema s -> wf_value parse s v -> nth_error bs i = Some (encode s v) ->
+    nth_error (decode_history parse s bs) i = Some (Ok v).
+Proof. exact Proofs.C19.history_position. Qed.
+Print Assumptions history_position.
+
+Theorem history_prefix_stable :
+  forall parse s (bs later : list (list N)),
+    firstn (length bs) (decode_history parse s (bs ++ later)) = decode_history parse s bs.
+Proof. exact Proofs.C19.history_prefix_stable. Qed.
+Print Assumptions history_prefix_stable.
+
+(* encodings of well-formed values interleaved with rejected inputs: the accepted values read
+   back at the end are exactly the encoded ones, in order *)
+Theorem history_rejected_interleaved :
+  forall parse s (its : list hitem),
+    wf_schema s ->
+    Forall (fun it => match it with
+                      | HVal v => wf_value parse s v
+                      | HRaw b => forall v, decode parse s b <> Ok v
+                      end) its ->
+    accepted (decode_history parse s (map (hitem_bytes s) its)) = hitem_vals its.
+Proof. exact Proofs.C19.history_rejected_interleaved. Qed.
+Print Assumptions history_rejected_interleaved.
+
+(* the executable form evaluated on the implementation's RE-READ observables: it implies that no
+   step panicked and that every round-trip step still holds the value it was encoded from; for a
+   history of round-trip steps it is exactly the conclusion of [roundtrip_history]; and it holds
+   of every history produced by the model of a modelled decoder *)
+Theorem spec_hist_sound :
+  forall s orc steps, spec_hist s orc steps = true ->
+    Forall (fun st => step_obs st <> Panic /\
+                      (step_kind st = KRoundTrip -> exists v, step_orig st = Some v /\ step_obs st = Ok v)) steps.
+Proof. exact Proofs.C19.spec_hist_sound. Qed.
+Print Assumptions spec_hist_sound.
+
+Theorem spec_hist_roundtrip_form :
+  forall s orc steps (vs : list (list fval)),
+    spec_hist s orc steps = true ->
+    Forall (fun st => step_kind st = KRoundTrip) steps ->
+    map step_orig steps = map Some vs ->
+    map step_obs steps = map Ok vs.
+Proof. exact Proofs.C19.spec_hist_roundtrip_form. Qed.
+Print Assumptions spec_hist_roundtrip_form.
+
+Theorem spec_hist_gen_sound :
+  forall steps, spec_hist_gen steps = true ->
+    Forall (fun st => match st with (k, o, valid) =>
+              o <> OPanic /\ (o = OOk -> valid = true) /\ (k = KRoundTrip -> o = OOk) end) steps.
+Proof. exact Proofs.C19.spec_hist_gen_sound. Qed.
+Print Assumptions spec_hist_gen_sound.
+
+Theorem model_history_passes_spec :
+  forall orc s (its : list hitem),
+    In s all_schemas ->
+    Forall (fun it => match it with HVal v => wf_value (orc_lookup orc) s v | HRaw _ => True end) its ->
+    spec_hist s orc (map (model_step (orc_lookup orc) s) its) = true.
+Proof. exact Proofs.C19.model_history_passes_spec. Qed.
+Print Assumptions model_history_passes_spec.
